@@ -437,7 +437,8 @@ type genQuery struct {
 // genQuery builds one query; shapes rotate with the case index.
 func buildQuery(rng *rand.Rand, idx int) genQuery {
 	shapes := []string{"project", "where", "distinct", "groupby", "groupby-trigger", "join-inner", "join-left", "join-right", "join-outer", "join-star",
-		"tvf-range", "tvf-watermark", "tvf-tumble", "subquery-from", "with", "groupby-in-subquery", "outerjoin-in-subquery", "scalar-subquery", "casts", "lookup-join", "join-groupby", "explode"}
+		"tvf-range", "tvf-watermark", "tvf-tumble", "subquery-from", "with", "groupby-in-subquery", "outerjoin-in-subquery", "scalar-subquery", "casts", "lookup-join", "join-groupby", "explode",
+		"typesum", "typesum", "typesum-groupby", "typesum-subquery", "typesum-distinct", "typesum"}
 	shape := shapes[idx%len(shapes)]
 	g := &qgen{rng: rng, cols: map[string][]string{}}
 	depth := 1 + rng.Intn(3)
@@ -554,6 +555,8 @@ func buildQuery(rng *rand.Rand, idx int) genQuery {
 			parts[i] = fmt.Sprintf("%s AS c%d", sel[i], i)
 		}
 		return genQuery{shape: shape, sql: "SELECT " + strings.Join(parts, ", ") + " FROM m.t1 a"}
+	case "typesum", "typesum-groupby", "typesum-subquery", "typesum-distinct":
+		return genQuery{shape: shape, sql: buildTypesumQuery(rng, shape)}
 	case "explode":
 		return genQuery{shape: shape, sql: "SELECT " + g.pick("a.o->*", "a.id, a.o->*", "a.o->*, a.no->x AS nx", "a.no->*") + " FROM m.t1 a"}
 	}
@@ -633,9 +636,20 @@ func runQuery(c *core.Ctx, ctx context.Context, i int, only string) {
 	rng := c.Rng(fmt.Sprintf("q/%d", i))
 	q := buildQuery(rng, i)
 	db := &nodeh.DB{Tables: map[string]*nodeh.Table{"t1": genTable(rng, t1Cols, 8), "t2": genTable(rng, t2Cols, 6)}}
+	if strings.HasPrefix(q.shape, "typesum") {
+		db.Tables["t3"] = genTable(rng, t3Cols, 10)
+	}
 	optimize := rng.Intn(2) == 0
 	replay := map[string]interface{}{"id": id, "shape": q.shape, "sql": q.sql, "optimize": optimize,
 		"t1": nodeh.EventsString(db.Tables["t1"].Events), "t2": nodeh.EventsString(db.Tables["t2"].Events)}
+	if t3, ok := db.Tables["t3"]; ok {
+		replay["t3"] = nodeh.EventsString(t3.Events)
+		fs := make([]string, len(t3.Fields))
+		for i, f := range t3.Fields {
+			fs[i] = f.Name + ": " + f.Type.String()
+		}
+		replay["t3_schema"] = fs
+	}
 	c.Eval(1)
 	if q.join {
 		c.LogCase(id, q.sql)
